@@ -27,7 +27,7 @@ def link_addr(cfg):
     return bytes([0x70 + cfg["pipe"]]) + base[1:aw], p1
 
 
-def configure(drv, cfg, is_lite):
+def configure(drv, cfg, is_lite, is_rx=False):
     if cfg["aw"] != 5:
         drv.address_length = cfg["aw"]
     if cfg["channel"] != 76:
@@ -41,7 +41,10 @@ def configure(drv, cfg, is_lite):
             drv.auto_ack = False
     if not cfg["dyn"]:
         drv.dynamic_payloads = False
-        drv.payload_length = cfg["pl"]
+        if cfg.get("pl_vec") and is_rx and not is_lite:
+            drv.payload_length = list(cfg["pl_vec"])  # per-pipe static lengths
+        else:
+            drv.payload_length = cfg["pl"]
     if cfg.get("ack"):
         drv.ack = True
     if cfg["arc"] != 15:
@@ -56,7 +59,7 @@ def build_pair(cfg, spilog=True, horizon=20 * 1000 * MS):
     a, ra = H.mk_driver(w, "A", cls=cls_of(cfg["tx_cls"]), front=cfg["front_a"], cost=cfg["cost_a"], spilog=spilog)
     b, rb = H.mk_driver(w, "B", cls=cls_of(cfg["rx_cls"]), front=cfg["front_b"], cost=cfg["cost_b"], spilog=spilog)
     configure(a, cfg, cfg["tx_cls"] == "lite")
-    configure(b, cfg, cfg["rx_cls"] == "lite")
+    configure(b, cfg, cfg["rx_cls"] == "lite", is_rx=True)
     addr, p1 = link_addr(cfg)
     if p1 is not None:
         b.open_rx_pipe(1, p1)
